@@ -223,6 +223,8 @@ func (e *Env) eval(x gast.Expr) (Val, *Err) {
 		return Val{}, errf(EKind, "bad literal")
 	case *gast.Paren:
 		return e.eval(n.X)
+	case *gast.Frozen:
+		return e.eval(n.X)
 	case *gast.Not:
 		v, err := e.eval(n.X)
 		if err != nil {
@@ -1236,6 +1238,23 @@ func (e *Env) method(recv reflect.Value, name string, args []Val) (Val, *Err) {
 				return Val{}, err
 			}
 			obj.H = a[0]
+			return Val{K: KNil}, nil
+		case "PokeI64":
+			a, err := i64(1)
+			if err != nil {
+				return Val{}, err
+			}
+			obj.I64 = a[0]
+			return Val{K: KNil}, nil
+		case "PokeS":
+			if len(args) != 1 {
+				return Val{}, errf(EKind, "argument count")
+			}
+			s, err := plainStr(args[0])
+			if err != nil {
+				return Val{}, err
+			}
+			obj.S = s
 			return Val{K: KNil}, nil
 		case "P":
 			a, err := i64(1)
